@@ -822,3 +822,7 @@ def _block(L, i):
     if i < L['end_bottom']:
         return 'bottom'
     return 'eps'
+
+
+RULE += (' Classes and clauses added in later rounds of the seeded-change protocol (DESIGN 9.4) are named in REQUIRED '
+         'and in seeded/HISTORY.json; the evidence counts every one of them under classes.')
